@@ -1,0 +1,9 @@
+//go:build !verif
+
+package parser
+
+import "ti/context"
+
+func verifTick(p *Parser) {}
+
+func verifFatal(p *Parser, ctx context.Context, err error) {}
